@@ -149,6 +149,9 @@ def run_lk(rule: str, size: int, keys: list[str]) -> str:
 def _consume(gen, sink_frames: list) -> BaseException | None:
     try:
         for f in gen:
+            if not isinstance(f, jelly.RdfStreamFrame):
+                # the code under test handed out something that is not a frame: its error, reported like one (not a harness crash)
+                return TypeError(f"serializer yielded {type(f).__name__} instead of a frame")
             sink_frames.append(f)
     except Exception as e:  # noqa: BLE001
         return e
